@@ -342,6 +342,7 @@ def rerun_generic(ctx, rp):
 
 def c19(ctx):
     ctx.build()
+    wire_check(ctx)
     # (1) histories: every well-formed history up to the bound, printed by TLC from Lsp.tla (its own invariants are checked on the way)
     hs = gen_lines(ctx, "Lsp", "Lsp_%s.cfg" % ctx.tier, "every LSP history up to the bound with the text each reply must come from", workers=4)
     g = ctx.tlc("Lsp", "Lsp_sim.cfg", workers=1, simulate="num=%d" % (100 if ctx.tier == "quick" else 2000), depth=12,
@@ -407,6 +408,51 @@ def c19(ctx):
                 seen.add(v["what"])
                 pr = o["probes"][v["at"] - 1] if v.get("at") else None
                 ctx.add_violation("C19: %s | probe %s | text: %r" % (v["what"], pr, o["text"][:300]), rp)
+            else:
+                raise Infra("candidate did not reproduce: %s" % v)
+
+
+def wire_check(ctx):
+    """C19 below the handlers: Wire.tla (client, pipe with short reads, buffered server) model-checked; its cut schedules
+    replayed against the real binary `numscript lsp`"""
+    import subprocess
+    from .core import REPO, goenv
+    from .checks_store import gen_lines
+    ctx.tlc_mc("Wire", "Wire_%s.cfg" % ctx.tier, label="Wire.tla: reassembly of the request stream under every chunking and every short read (design level)")
+    r = ctx.tlc("Wire", "Wire_once.cfg", workers=8, label="named deviation ReadMode=once (one Read instead of ReadFull) must violate Reassembly")
+    if "Reassembly" not in " ".join(r["inv_violated"]):
+        raise Infra("Wire.tla with ReadMode=once was not refuted: the reassembly invariant is vacuous")
+    binp = os.path.join(ctx.work, "numscript_lsp")
+    p = subprocess.run(["go", "build", "-o", binp, "./internal/numscript"], cwd=REPO, env=goenv(), capture_output=True, text=True)
+    if p.returncode != 0:
+        raise Infra("cannot build the numscript binary: %s" % p.stderr[-500:])
+    gens = sorted(set(gen_lines(ctx, "Wire", "Wire_gen_%s.cfg" % ctx.tier, "cut schedules of the request stream (structural positions)")))
+    gp = os.path.join(ctx.work, "wire_gen.ndjson")
+    open(gp, "w").write("\n".join(gens) + "\n")
+    op = os.path.join(ctx.work, "wire_obs.ndjson")
+    s1 = ctx.vh_json(["wire-check", binp, gp, op], timeout=3600)
+    r = ctx.tlc_trace("WireTrace", "WireTrace.cfg", op, label="WireTrace judges the real server binary under every cut schedule")
+    ctx.cov["evaluations"] += s1["cases"]
+    ctx.cov["traces_validated_against_impl"] += s1["cases"]
+    ctx.cov["wire_schedules_replayed"] = s1["cases"]
+    viols = [v for v in r["viols"] if v["prop"] == "C19"]
+    if viols:
+        obs = read_ndjson(op)
+        seen = set()
+        for v in viols:
+            if v["what"] in seen:
+                continue
+            o = obs[v["id"]]
+            # confirm: the same cut offsets once more, in a fresh harness process
+            cp = os.path.join(ctx.work, "wire_cand%d.ndjson" % len(seen))
+            open(cp, "w").write(gens[0] + "\n")    # placeholder line; the recorded offsets are replayed through VERIF_WIRE_CUTS
+            again = ctx.vh_json(["wire-check", binp, cp, cp + ".out"], env={"VERIF_WIRE_CUTS": json.dumps(o["cuts"])})
+            r2 = ctx.tlc_trace("WireTrace", "WireTrace.cfg", cp + ".out", label="confirmation")
+            if [x for x in r2["viols"] if x["prop"] == "C19"]:
+                seen.add(v["what"])
+                ctx.add_violation("C19 (transport): %s | request stream of %d bytes written in pieces ending at offsets %s | exit %s, %d frames (uncut run: %d), hover %s" % (
+                    v["what"], s1["stream_bytes"], o["cuts"], o["exit"], o["nframes"], o["basenframes"], o["hover"][:160]),
+                    dict(kind="wire", property="C19", cuts=o["cuts"], observed=o))
             else:
                 raise Infra("candidate did not reproduce: %s" % v)
 
